@@ -162,9 +162,12 @@ func findChangedThrift(r *git.Repository) (*treeChanges, error) {
 	if err != nil {
 		return nil, err
 	}
-	// Diff the trees and find what changed.
+	// Diff the trees and find what changed. Renames are not detected: the
+	// comparison below looks files up under the same name in both commits,
+	// so a file that disappears must be treated as deleted even if a
+	// similar (or, with a zero rename score, any) file was added.
 	objects, _ := object.DiffTreeWithOptions(context.Background(),
-		pc, c, &object.DiffTreeOptions{DetectRenames: true}) // *object.Changes
+		pc, c, &object.DiffTreeOptions{DetectRenames: false}) // *object.Changes
 	var changed []*change
 	for _, o := range objects {
 		a, err := o.Action() // Insert, delete or modify.
